@@ -17,7 +17,7 @@ CONSTANTS NsOffset,     \* Options.NamespaceOffset (1000 stands for -1 = off; cf
           MaxWrites
 
 \* the size limits are not explored here (small transactions): any values do
-S == INSTANCE TxnSize WITH MaxSize <- 0, MaxCount <- 0, Threshold <- Thr, Reserve <- 0, KLens <- {}, FixedV <- {},
+S == INSTANCE TxnSize WITH MaxSize <- 0, MaxCount <- 0, Threshold <- Thr, InMem <- InMemory, Reserve <- 0, KLens <- {}, FixedV <- {},
                            Dists <- {}, Digits <- {}, MaxAdds <- 0,
                            size <- 0, count <- 0, ents <- <<>>, nadds <- 0, st <- "open"
 
